@@ -454,6 +454,43 @@ pub fn eval_session_check(check: &str, case: &Case, replies: &[String]) -> Optio
                 Err(format!("state field {} differs: {} vs {}", key, field(&fa, key), field(&fb, key)))
             }
         }
+        // C03: printed output and final (error kind, line) as the reference interpreter says
+        ["ref-outcome", r, outhex, err, rest @ ..] => {
+            let (a, b) = parse_range(r);
+            let prefix = rest.contains(&"prefix");
+            let mut got = String::new();
+            let mut got_err = "-".to_string();
+            for i in a..=b.min(case.ops.len() - 1) {
+                if case.ops[i] == "take" {
+                    for rec in replies[i].split(' ') {
+                        if let Some(h) = rec.strip_prefix("P:") {
+                            got.push_str(&crate::imp::unhex(h).unwrap_or_default());
+                        }
+                    }
+                } else if is_call(&case.ops[i]) && replies[i].starts_with("err ") {
+                    // err Kind@line:idx
+                    let e = &replies[i][4..];
+                    let (kind, loc) = e.split_once('@').unwrap_or((e, "-"));
+                    let line = loc.split(':').next().unwrap_or("-");
+                    got_err = format!("{}@{}", kind, if line == "imm" { "-" } else { line });
+                }
+            }
+            let want = if *outhex == "-" { String::new() } else { crate::imp::unhex(outhex).unwrap_or_default() };
+            if prefix {
+                let n = got.len().min(want.len());
+                if got.as_bytes()[..n] != want.as_bytes()[..n] {
+                    Err(format!("printed output diverges from the reference interpreter's: got {:?}, reference {:?}", got, want))
+                } else {
+                    Ok(())
+                }
+            } else if got != want {
+                Err(format!("printed output {:?} but the reference interpreter prints {:?}", got, want))
+            } else if got_err != *err {
+                Err(format!("run ended with {} but the reference interpreter ends with {}", got_err, err))
+            } else {
+                Ok(())
+            }
+        }
         ["no-syntax-error"] => {
             let mut res = Ok(());
             for i in 0..case.ops.len() {
